@@ -2,10 +2,12 @@
 package c07
 
 import (
+	"bufio"
 	"bytes"
 	"errors"
 	"fmt"
 	"io"
+	"net"
 	"net/http"
 	"net/http/httptest"
 	"strconv"
@@ -209,6 +211,16 @@ func scriptHandler(script []attemptScript, calls *int) http.Handler {
 		i := *calls
 		*calls++
 		s := script[i%len(script)]
+		if r.Header.Get("X-Try-Hijack") != "" {
+			// a handler that would like to take the connection over; when that is refused it
+			// answers like any other handler
+			if hj, ok := w.(http.Hijacker); ok {
+				if conn, _, err := hj.Hijack(); err == nil {
+					conn.Close()
+					return
+				}
+			}
+		}
 		// method-override style middlewares rewrite the request they were handed; the retry
 		// expression speaks about the client's request
 		if s.status%2 == 0 {
@@ -232,6 +244,14 @@ func scriptHandler(script []attemptScript, calls *int) http.Handler {
 			_, _ = w.Write(wr)
 		}
 	})
+}
+
+// refusingClient implements http.Hijacker but never hands the connection out (HTTP/2, or a
+// wrapper in front of a writer that cannot be hijacked).
+type refusingClient struct{ *sim.Recorder }
+
+func (refusingClient) Hijack() (net.Conn, *bufio.ReadWriter, error) {
+	return nil, nil, errors.New("hijacking is not supported on this connection")
 }
 
 // flakyClient is the client's connection seen from the server: it accepts a number of body
@@ -392,6 +412,9 @@ func TestC07_InProcess(t *testing.T) {
 		if rapid.IntRange(0, 5).Draw(t, "clientGoesAway") == 0 {
 			gone = rapid.IntRange(0, 6000).Draw(t, "acceptedBytes")
 			client = &flakyClient{rec, gone}
+		} else if rapid.IntRange(0, 5).Draw(t, "hijackRefused") == 0 {
+			client = refusingClient{rec}
+			req.Header.Set("X-Try-Hijack", "1")
 		}
 		func() {
 			defer func() {
